@@ -346,17 +346,46 @@ class FakeSqlite:
         return c
 
 
-class FakeDatetime:
-    """tofu's ``datetime`` module: a fixed instant (the value only ends up in last_seen)."""
+class _Unmodelled(type):
+    def __getattr__(cls, name):
+        from vf import HarnessError
+        raise HarnessError("datetime.%s is not modelled" % name)
+
+
+class _Now:
+    def isoformat(self, *a, **k):
+        return "2026-01-01T00:00:00+00:00"
+
+    def __getattr__(self, name):
+        from vf import HarnessError
+        raise HarnessError("datetime instance .%s is not modelled" % name)
+
+
+class FakeDatetime(metaclass=_Unmodelled):
+    """tofu's clock: a fixed instant (the value only ends up in first_seen / last_seen).  Stands for the ``datetime``
+    module and for the ``datetime.datetime`` class alike, whichever spelling the module under analysis imports."""
 
     class timezone:
         utc = None
 
-    class datetime:
-        @staticmethod
-        def now(tz=None):
-            return FakeDatetime._Now()
+    UTC = None
+    _Now = _Now
 
-    class _Now:
-        def isoformat(self):
-            return "2026-01-01T00:00:00+00:00"
+    @staticmethod
+    def now(tz=None):
+        return _Now()
+
+    @staticmethod
+    def utcnow():
+        return _Now()
+
+
+FakeDatetime.datetime = FakeDatetime
+
+
+def install_clock(mod):
+    """replace every global of ``mod`` that is the datetime module or the datetime class by the fixed clock"""
+    import datetime as _dt
+    for name, val in list(vars(mod).items()):
+        if val is _dt or val is _dt.datetime:
+            setattr(mod, name, FakeDatetime)
